@@ -281,6 +281,29 @@ func runC04(w *World, tier string) (bool, interface{}) {
 	}
 	c.L.Quiesce(6)
 
+	// observation only (same root cause as the recorded cross-round finding: both the
+	// long-term key and the dealer polynomial are the first draw from frand(seed)):
+	// is a dealer's constant coefficient the machine's long-term private key?
+	for _, a := range w.Airs {
+		if a == nil || a.M == nil {
+			continue
+		}
+		var lt []byte
+		for _, sc := range machineSecrets(a) {
+			if sc.name == "long-term-private-key" {
+				lt = sc.val
+			}
+		}
+		for _, sc := range machineSecrets(a) {
+			if strings.HasPrefix(sc.name, "dealer-polynomial-coefficient-0/") && len(lt) > 0 {
+				if bytes.Equal(sc.val, lt) {
+					w.Stats.Probe("dealer-constant-coefficient-equals-long-term-private-key")
+				} else {
+					w.Stats.Probe("dealer-constant-coefficient-differs-from-long-term-private-key")
+				}
+			}
+		}
+	}
 	// ---- (1) taint scan over everything that left a machine or is on the board --------
 	nsecrets, nblobs, noutputs := taintScan(w, w.Airs)
 	outputs := make([][]byte, noutputs)
